@@ -40,8 +40,6 @@ class C04Spec(explore.Spec):
         evs += [alpha.rx("1;255;3;0;11;sk\r"), alpha.rx("1;0;1;0;2;1 \t")]
         # text outside ASCII arrives as UTF-8 bytes and is mirrored exactly (sketch name, child description)
         evs += [alpha.rx("1;255;3;0;11;K\u00fchl\u00b0")]
-        if self.tier == "thorough":
-            evs += [alpha.rx("1;0;0;0;6;T\u00fcr \u2603")]
         if cfg.get("flavour") != "async":
             # a burst: two lines queued before the poll thread runs - they take effect in arrival order
             evs += [("rx2", t["SA0"], t["SA0z"]), ("rx2", t["PA"], t["CA0"]), ("rx2", t["SA0z"], t["SA0"])]
